@@ -57,7 +57,7 @@ Next ==
      ELSE
        LET r == MonStep(P, m, st, e) IN
        /\ m' = r.m
-       /\ st' = StoreStep(st, e)
+       /\ st' = r.st
        /\ viol' = viol \cup {<<run, l, P.id, t[1], t[2]>> : t \in r.v}
        /\ kfs' = kfs \cup {<<run, l, P.id, t[1], t[2]>> : t \in r.k}
        /\ UNCHANGED <<summ, run>>
